@@ -177,6 +177,9 @@ func propC15(c *Ctx, r *Report) {
 	r.Clauses = append(r.Clauses, typeTextClause+" - the decision to leave a local variable without its zero initialiser")
 	c.runTypeByText(r, "type.bytext", inPkgs("msl", "glsl", "hlsl", "spirv"))
 	r.floor("type.renderedNames", 50)
+	r.Clauses = append(r.Clauses, runtimeArrClause)
+	c.runRuntimeArrayShapes(r, "runtimearray.shapes", inPkgs("msl", "glsl", "hlsl", "spirv"))
+	r.floor("runtimearray.shapes", 1)
 	r.floor("spirv.Block.walkers", 3)
 	r.floor("routing.index-sites", 3)
 	r.floor("hardened.ops", 6)
